@@ -12,6 +12,7 @@ import (
 	"runtime"
 	"strconv"
 	"sync"
+	"sync/atomic"
 	"time"
 
 	"github.com/ChainSafe/sygma-relayer/comm"
@@ -136,6 +137,7 @@ type c07Comm struct {
 	closed []string
 	nSub   int
 	nUnsub int
+	mark   int // subscriptions with id ≤ mark belong to an earlier attempt and are not delivered to
 }
 
 func c07NewComm() *c07Comm {
@@ -205,7 +207,7 @@ func (c *c07Comm) waitUntil(d time.Duration, done <-chan struct{}, pred func() b
 
 func (c *c07Comm) subscriber(session string, typ comm.MessageType) *c07Sub {
 	for _, s := range c.subs {
-		if s.session == session && s.typ == typ {
+		if s.id > c.mark && s.session == session && s.typ == typ {
 			return s
 		}
 	}
@@ -214,17 +216,30 @@ func (c *c07Comm) subscriber(session string, typ comm.MessageType) *c07Sub {
 
 // c07Patience bounds every wait of a scenario for something the code under test is expected to do promptly.
 // It is only ever exhausted when the code does NOT do it (then the output says so); it is no pacing device.
-const c07Patience = 6 * time.Second
+// Once a few waits have been exhausted the run is already certain to end in a reported disagreement, so the remaining
+// scenarios stop being patient (a broken tree must not turn the check into hours of waiting).
+const c07PatienceMax = 6 * time.Second
+
+var c07Anomalies int32
+
+func c07Patience() time.Duration {
+	if atomic.LoadInt32(&c07Anomalies) >= 3 {
+		return 40 * time.Millisecond
+	}
+	return c07PatienceMax
+}
+func c07Anomaly() { atomic.AddInt32(&c07Anomalies, 1) }
 
 // deliver hands one message to the (first) current subscriber of (session, type). Result:
 // "ok" taken by the receiving loop, "nosub" nobody subscribed within the patience, "stuck" subscribed but not
 // taken, "done" the scenario's main call returned first.
 func (c *c07Comm) deliver(session string, typ comm.MessageType, from peer.ID, payload []byte, done <-chan struct{}) string {
 	var sub *c07Sub
-	switch c.waitUntil(c07Patience, done, func() bool { sub = c.subscriber(session, typ); return sub != nil }) {
+	switch c.waitUntil(c07Patience(), done, func() bool { sub = c.subscriber(session, typ); return sub != nil }) {
 	case "done":
 		return "done"
 	case "timeout":
+		c07Anomaly()
 		return "nosub"
 	}
 	msg := &comm.WrappedMessage{MessageType: typ, SessionID: session, Payload: payload, From: from}
@@ -233,7 +248,8 @@ func (c *c07Comm) deliver(session string, typ comm.MessageType, from peer.ID, pa
 		return "ok"
 	case <-done:
 		return "done"
-	case <-time.After(c07Patience):
+	case <-time.After(c07Patience()):
+		c07Anomaly()
 		return "stuck"
 	}
 }
@@ -277,6 +293,7 @@ type c07Proc struct {
 	runs      []c07Run
 	stops     int
 	started   chan struct{} // receives one token per Run entered
+	onEnter   func(i int)   // called when the i-th Run is entered, before `started` is signalled
 }
 
 func (p *c07Proc) Run(ctx context.Context, coordinator bool, resultChn chan interface{}, params []byte) error {
@@ -284,6 +301,9 @@ func (p *c07Proc) Run(ctx context.Context, coordinator bool, resultChn chan inte
 	i := len(p.runs)
 	p.runs = append(p.runs, c07Run{coordinator, append([]byte{}, params...)})
 	p.mu.Unlock()
+	if p.onEnter != nil {
+		p.onEnter(i)
+	}
 	if p.started != nil {
 		p.started <- struct{}{}
 	}
